@@ -101,6 +101,41 @@ pub fn gen(out: &mut Out, thorough: bool) {
         out.count_n("wide_duplicate_objects", n);
         out.exhaustive.push(format!("objects with {:?} entries mostly under ONE key, values from a pool with nested objects / arrays of objects: deep shuffle (both directions) and one mutation", sizes));
     }
+    // objects of EVERY size 2..=40 (and some larger) with mostly DISTINCT keys whose key multisets
+    // differ by one: one side repeats a key (same value) where the other has a key of its own; one side
+    // repeats k_i, the other k_j; a repeated key with the two values swapped. Both argument orders,
+    // shuffled, bare and nested (a size-dependent fast path, a one-sided duplicate test)
+    {
+        let mut sizes: Vec<usize> = (2..=40).collect();
+        sizes.extend_from_slice(if thorough { &[41, 48, 63, 64, 65, 100, 130, 257][..] } else { &[64, 65, 130][..] });
+        let mut n = 0u64;
+        for &sz in &sizes {
+            let distinct: Vec<(String, Value)> = (0..sz).map(|i| (format!("k{}", i), Value::Number(((i % 7) as u8).into()))).collect();
+            let build = |es: &[(String, Value)]| { let mut o = Object::new(); for (k, v) in es { o.push(k.as_str().into(), v.clone()); } Value::Object(o) };
+            let j = out.rng.below(sz as u64 - 1) as usize;
+            let i2 = (j + 1 + out.rng.below(sz as u64 - 1) as usize) % (sz - 1);
+            // a: the last key replaced by a second copy of k_j (same value)
+            let mut a = distinct.clone(); a[sz - 1] = distinct[j].clone();
+            // b: the last key replaced by a second copy of k_i2
+            let mut b = distinct.clone(); b[sz - 1] = distinct[i2].clone();
+            // c: as a, the copy carrying another value; d: the two values of the repeated key swapped
+            let mut c = a.clone(); c[sz - 1].1 = Value::Boolean(true);
+            let mut d = c.clone(); d[sz - 1].1 = c[j].1.clone(); d[j].1 = Value::Boolean(true);
+            let all = [build(&distinct), build(&a), build(&b), build(&c), build(&d)];
+            for (x, vx) in all.iter().enumerate() { for (y, vy) in all.iter().enumerate() {
+                if x == y && sz > 12 { continue; }
+                let (px, py) = if (x + y + sz) % 2 == 0 { (shuffle_deep(&mut out.rng, vx), vy.clone()) } else { (vx.clone(), shuffle_deep(&mut out.rng, vy)) };
+                l(format!("ueq {} {}", show_value(&px), show_value(&py)), out);
+                n += 1;
+                if (x + y + sz) % 5 == 0 {
+                    l(format!("ueq {} {}", show_value(&Value::Array(vec![Value::Null, px.clone()])), show_value(&Value::Array(vec![Value::Null, py.clone()]))), out);
+                    n += 1;
+                }
+            } }
+        }
+        out.count_n("wide_distinct_key_multiset_pairs", n);
+        out.exhaustive.push(format!("for every object size in {:?}: all ordered pairs of {{all keys distinct, one key repeated, another key repeated, repeated with a different value, the two values swapped}}, one side shuffled", sizes));
+    }
     // random large values: shuffles must be equal, single-leaf mutations must differ
     let m = if thorough { 300000 } else { 3000 };
     for _ in 0..m {
